@@ -33,6 +33,21 @@ def scenarios(tier):
     return sc
 
 
+def acc_C09_with_halts(w):
+    """"... unless a trading halt is in force": whether one is in force is judged from the rule's configuration (the halt
+    schedule of C16), not from the flags the system keeps -- a market the system treats as stopped although no halt should
+    be in force (or the reverse) breaks the matching clause of C09 just as well"""
+    acc_C09(w)
+    if "halt_rules" in w.scn.meta and any(e[0] == "obs" for e in w.ev):
+        from ..acceptors_r2 import acc_C16
+        from ..common import Violation
+        try:
+            acc_C16(w)
+        except Violation as v:
+            if v.monitor in ("C16.schedule", "C16.schedule_end", "C16.running_at_order", "C16.fill_during_halt", "C16.fill_while_stopped"):
+                raise Violation("C09.halt_state", "matching is suspended (or goes on) although by the configured halt rules no halt (a halt) is in force at that moment | " + v.msg)
+
+
 def on_exc(w):
     return ("C09.run_aborted", "the run aborted with %s: %s" % (type(w.exc).__name__, str(w.exc)[:80]))
 
@@ -43,7 +58,7 @@ def run(tier, seed):
     res = common.Result("C09", tier, seed)
     run_r("C09", tier, seed, scenarios(tier), [acc_C09], 2 if tier == "quick" else 3, on_exc, WIT, RULE, res=res)
     x = {k: v for k, v in cross_family(tier).items() if not k.startswith("x:c09:")}
-    run_r("C09", tier, seed, x, [acc_C09], 1, on_exc, [], RULE, res=res, label="cross_family", split=0)
+    run_r("C09", tier, seed, x, [acc_C09_with_halts], 1, on_exc, [], RULE, res=res, label="cross_family", split=0)
     return res
 
 
@@ -51,4 +66,4 @@ def replay(payload):
     from ..families import cross_family
     sc = scenarios("thorough")
     sc.update(cross_family("thorough"))
-    return replay_r(sc, [acc_C09], on_exc, payload)
+    return replay_r(sc, [acc_C09_with_halts], on_exc, payload)
